@@ -99,6 +99,24 @@ def _file(ctx, case):
                               "FileAnonymizer(preserve_suffix_%s=%d): %s -> %s changes the trailing bits" % (fam, b, ipa.ip_address(v), tok))
                 return
             ctx.distinct(("file", fam, b, v & 0xFFFF))
+            if b:
+                # a twin that differs only in the preserved host bits must get the same leading bits (text level)
+                L_ = 32 if fam == "v4" else 128
+                twin = v ^ (1 << rng.randrange(min(b, L_)))
+                if fam == "v4" and ref.untouched4(twin):
+                    continue
+                ttxt = ipref.s4(twin) if fam == "v4" else ipref.s6(twin)
+                tout = ipref.run_io(fa, ttxt + "\n")[:-1]
+                try:
+                    tgot = int(ipa.ip_address(tout))
+                except ValueError:
+                    continue
+                ctx.count("host_bit_independence_checks")
+                if b < L_ and (tgot >> b) != (got >> b):
+                    ctx.violation(dict(case, lines=[segs]), "leading-bits-depend-on-host-bits:file-level-" + fam,
+                                  "%s -> %s but its twin %s (only host bits differ) -> %s: leading bits differ"
+                                  % (ipa.ip_address(v), tok, ttxt, tout))
+                    return
 
 
 def check_case(ctx, case):
